@@ -18,13 +18,18 @@ setup)
 	build
 	"$VERIF_DIR/bin/verif" selftest || exit 2
 	;;
-check)
+check | replay)
 	build
-	exec "$VERIF_DIR/bin/verif" check "$2" ${3:-}
-	;;
-replay)
-	build
-	exec "$VERIF_DIR/bin/verif" replay "$2"
+	# per-run scratch directory (children, builds of drv, race logs); removed whatever happens to the parent
+	VERIF_SCRATCH="$(mktemp -d "${TMPDIR:-/tmp}/verif-XXXXXX")" || exit 2
+	export VERIF_SCRATCH
+	trap 'rm -rf "$VERIF_SCRATCH"' EXIT INT TERM
+	if [ "$1" = check ]; then
+		"$VERIF_DIR/bin/verif" check "$2" ${3:-}
+	else
+		"$VERIF_DIR/bin/verif" replay "$2"
+	fi
+	exit $?
 	;;
 *)
 	echo "usage: $0 setup | check <ID> [quick|thorough] | replay <file>" >&2
